@@ -4,6 +4,7 @@ use futures::task::{Context, Poll};
 use std::mem;
 
 use std::sync::*;
+#[cfg(desync_verif)] use vsched::sync::{Mutex, Condvar};
 
 ///
 /// The unsafe job does not manage the lifetime of its TFn
